@@ -54,7 +54,8 @@ def fmt(draw, array):
         n_bits = draw(st.one_of(st.sampled_from([8, 16, 32, 53, 54, 63, 64]),
                                 st.integers(8, 64)))
     n_frac = draw(st.one_of(st.integers(0, n_bits),
-                            st.integers(-4, n_bits + 8)))
+                            st.integers(-4, n_bits + 8),
+                            st.integers(-16, n_bits + 40)))
     return signed, n_bits, n_frac
 
 
@@ -286,8 +287,16 @@ def check_numpy(case):
                 conv = type_casts.NumpyFloatToFixConverter(signed, n_bits,
                                                            n_frac)
                 out = conv(arr)
-                # a converter object is re-usable
+                kept = np.array(out, copy=True)
+                # a converter object is re-usable: other values of the same
+                # shape, then the first input again
+                other = conv(np.negative(arr) if np.asarray(arr).dtype.kind
+                             in "fi" else arr)
+                intact = np.array_equal(np.asarray(out), kept)
                 again = conv(arr)
+    require(intact,
+            "a result returned earlier changed when the converter was used "
+            "again", det)
     require(np.array_equal(np.asarray(out), np.asarray(again)),
             "a converter gives a different result when called a second time",
             det)
